@@ -2285,9 +2285,12 @@ def octal_guard_findings(ctx):
     bad = sorted(digits - {str(i) for i in range(base)})
     pa = ix.mod('Parsing')
     res, recognised, where = [], False, None
+    intnode = ix.cls('ExprNodes', 'IntNode')
     for m, qn, owner, fn, lt in literal_text_functions(ix):
         if m is not pa:
             continue
+        if not any(isinstance(c, ast.Call) and (ix.resolve_expr(pa, c.func) or (None, None))[:2] == ('class', intnode) for c in walk_no_nested(fn)):
+            continue        # a helper that only receives the text and builds no IntNode: the guard obligation is the builder's
         where = fn
         guards = []
         for n in walk_no_nested(fn):
